@@ -61,7 +61,7 @@ inductive Owner where
 
 inductive Word where
   | null                                   -- nil payload / nil slice / nil map
-  | unk                                    -- *unknownType (refinements: see C05)
+  | unk (r : String)                       -- *unknownType; `r` = its refinement, opaque (see C05)
   | bool (b : Bool)
   | str (s : String)                       -- Go string: immutable
   | attr (s : String)                      -- GetAttrStep{Name}
@@ -220,7 +220,7 @@ def fp : Nat → Mem → Word → List Tok
   | f + 1, m, w =>
     match w with
     | .null => [.o "null", .c]
-    | .unk => [.o "unk", .c]
+    | .unk r => [.o "unk", .s r, .c]
     | .bool b => [.o "b", .i (if b then 1 else 0), .c]
     | .str s => [.o "s", .s s, .c]
     | .attr s => [.o "attr", .s s, .c]
@@ -273,7 +273,7 @@ def frozen : Nat → Mem → Word → Bool
   | 0, _, _ => true
   | f + 1, m, w =>
     match w with
-    | .null | .unk | .bool _ | .str _ | .attr _ | .tprim _ => true
+    | .null | .unk _ | .bool _ | .str _ | .attr _ | .tprim _ => true
     | .num a => match m[a]? with
       | some ⟨.lib, .bigfloat _⟩ => true
       | _ => false
@@ -318,7 +318,21 @@ histories use: whole numbers, strings, bools and lists/tuples of them, paths). -
 
 def eqFuel : Nat := 12
 
-def equivW (m : Mem) (x y : Word) : Bool := fp eqFuel m x == fp eqFuel m y
+/-- `setRules.Equivalent`: `Equals` is known true — never when an unknown occurs
+anywhere in a member (the comparison is unknown then) -/
+def equivW (m : Mem) (x y : Word) : Bool :=
+  let fx := fp eqFuel m x
+  fx == fp eqFuel m y && !fx.contains (.o "unk")
+
+/-- `pathSetRules.Equivalent`: same length and step-wise equal (so a nil path and
+an empty one are the same member) -/
+def equivPath (m : Mem) (x y : Word) : Bool :=
+  match sliceElems m x, sliceElems m y with
+  | some xs, some ys => xs.map (fp eqFuel m) == ys.map (fp eqFuel m)
+  | _, _ => false
+
+/-- the `Rules.Equivalent` of a set: values or paths -/
+abbrev Equiv := Mem → Word → Word → Bool
 
 /-- `NewSet` -/
 def setNew (m : Mem) (own : Owner) : Mem × Addr := alloc m own (.gomap [])
@@ -326,7 +340,7 @@ def setNew (m : Mem) (own : Owner) : Mem × Addr := alloc m own (.gomap [])
 /-- `Set.Add` (cty/set/ops.go): make the bucket if absent (`make([]T, 0, 1)`),
 scan it for an equivalent member, otherwise `append` — IN PLACE when the bucket
 has spare capacity. -/
-def setAdd (m : Mem) (a : Addr) (x : Word) (h : Int) : Option Mem :=
+def setAdd (eq : Equiv) (m : Mem) (a : Addr) (x : Word) (h : Int) : Option Mem :=
   match kvsOf m a with
   | none => none
   | some kvs =>
@@ -339,7 +353,7 @@ def setAdd (m : Mem) (a : Addr) (x : Word) (h : Int) : Option Mem :=
     match sliceElems mb.1 mb.2 with
     | none => none
     | some elems =>
-      if elems.any (equivW mb.1 x) then some mb.1
+      if elems.any (eq mb.1 x) then some mb.1
       else
         match goAppend mb.1 (.bucket a) mb.2 x with
         | none => none
@@ -348,9 +362,9 @@ def setAdd (m : Mem) (a : Addr) (x : Word) (h : Int) : Option Mem :=
           | none => none
           | some kvs2 => some (setBody m2 a (.gomap (kvInsert (.i h) b' kvs2)))
 
-def setAddAll (m : Mem) (a : Addr) : List Word → List Int → Option Mem
-  | x :: xs, h :: hs => match setAdd m a x h with
-    | some m' => setAddAll m' a xs hs
+def setAddAll (eq : Equiv) (m : Mem) (a : Addr) : List Word → List Int → Option Mem
+  | x :: xs, h :: hs => match setAdd eq m a x h with
+    | some m' => setAddAll eq m' a xs hs
     | none => none
   | [], [] => some m
   | _, _ => none
@@ -361,7 +375,7 @@ def findIdx (p : Word → Bool) : List Word → Nat → Option Nat
 
 /-- `Set.Remove`: the bucket without the member is a FRESH array
 (`make([]T, 0, len-1)` + two appends); an emptied bucket is deleted. -/
-def setRemove (m : Mem) (a : Addr) (x : Word) (h : Int) : Option Mem :=
+def setRemove (eq : Equiv) (m : Mem) (a : Addr) (x : Word) (h : Int) : Option Mem :=
   match kvsOf m a with
   | none => none
   | some kvs =>
@@ -371,7 +385,7 @@ def setRemove (m : Mem) (a : Addr) (x : Word) (h : Int) : Option Mem :=
       match sliceElems m b with
       | none => none
       | some elems =>
-        match findIdx (equivW m x) elems 0 with
+        match findIdx (eq m x) elems 0 with
         | none => some m
         | some i =>
           let rest := elems.take i ++ elems.drop (i + 1)
@@ -380,13 +394,13 @@ def setRemove (m : Mem) (a : Addr) (x : Word) (h : Int) : Option Mem :=
             let (m', arr) := alloc m (.bucket a) (.array rest)
             some (setBody m' a (.gomap (kvInsert (.i h) (.slice arr 0 rest.length rest.length) kvs)))
 
-def setHas (m : Mem) (a : Addr) (x : Word) (h : Int) : Option Bool :=
+def setHas (eq : Equiv) (m : Mem) (a : Addr) (x : Word) (h : Int) : Option Bool :=
   match kvsOf m a with
   | none => none
   | some kvs =>
     match kvLookup (.i h) kvs with
     | none => some false
-    | some b => (sliceElems m b).map fun elems => elems.any (equivW m x)
+    | some b => (sliceElems m b).map fun elems => elems.any (eq m x)
 
 /-- copy the buckets one by one into the set at `a'` -/
 def copyBuckets (m : Mem) (a' : Addr) : List (Key × Word) → Option Mem
